@@ -213,6 +213,14 @@ def check_config(config: dict) -> None:
     if n_ens < 2:
         raise TOMLConfigError("Define at least 2 interfaces!")
 
+    for value in list(intf) + [intf_cap, lambda_minus_one]:
+        if isinstance(value, float) and value != value:
+            # every comparison with NaN is false: it would slip through
+            # the sorted/duplicate/cap/lambda_minus_one checks below.
+            raise TOMLConfigError(
+                "Interfaces, interface_cap and lambda_minus_one cannot be NaN!"
+            )
+
     if isinstance(intf_cap, bool) and (
         "interface_cap" in config["simulation"]["tis_set"]
     ):
